@@ -294,20 +294,20 @@ Qed.
 
 (* the text after the value on an assignment line *)
 Definition trail_ok (t : str) : Prop :=
-  t = [] \/ exists c, t = c_sp :: s_comment_pre ++ c /\ comment_safe c = true.
+  t = [] \/ t = [c_comma] \/ exists c, t = c_sp :: s_comment_pre ++ c /\ comment_safe c = true.
 
 Lemma emit_trailing_ok tr : trailing_safe tr = true -> trail_ok (emit_trailing tr).
 Proof.
   destruct tr as [[|x r]|]; cbn [trailing_safe emit_trailing nilb orb]; intro H; [left; reflexivity| |left; reflexivity].
-  right. exists (x :: r). split; [reflexivity|exact H].
+  right. right. exists (x :: r). split; [reflexivity|exact H].
 Qed.
 
 Lemma trail_facts t : trail_ok t ->
   memb c_tab t = false /\ memb c_nl t = false /\ follow_ok t = true /\ (t <> [] -> last_is_blank t = false) /\
-  (forall p, scan_code t p false false = true) /\
-  (match t with c :: _ => c = c_sp | [] => True end).
+  (forall p, scan_code t p false false = true).
 Proof.
-  intros [->|(c & -> & H)].
+  intros [->|[->|(c & -> & H)]].
+  - repeat split; reflexivity.
   - repeat split; reflexivity.
   - destruct (comment_safe_facts c H) as (Hne & Ht & Hn & Hl).
     repeat split; try reflexivity.
@@ -349,7 +349,7 @@ Lemma assign_body_ok key T t : key_safe key = true -> tok_ok T -> trail_ok t ->
 Proof.
   intros Hk HT Ht. destruct (key_safe_facts key Hk) as (Hne & Hi).
   destruct (inert_line_facts key 0 Hi Hne) as (K1 & K2 & _ & _ & K5 & K6).
-  destruct (trail_facts t Ht) as (T1 & T2 & T3 & T4 & T5 & T6).
+  destruct (trail_facts t Ht) as (T1 & T2 & T3 & T4 & T5).
   destruct HT as [Hn Htab Hnl Hlast Hhd Hscan].
   repeat split.
   - rewrite !memb_app, K1, Htab, T1. reflexivity.
@@ -505,6 +505,22 @@ Proof. intro H. unfold phys. cbn [flat_map]. rewrite split_on_no_sep by exact H.
 Lemma phys_flat_map {A} (f : A -> list str) xs : phys (flat_map f xs) = flat_map (fun x => phys (f x)) xs.
 Proof. induction xs as [|x xs IH]; [reflexivity|]. cbn [flat_map]. rewrite phys_app, IH. reflexivity. Qed.
 
+Lemma split_on_app_gen c a : forall b, split_on c (a ++ c :: b) = split_on c a ++ split_on c b.
+Proof.
+  induction a as [|x a IH]; intro b.
+  - cbn [app split_on]. rewrite N.eqb_refl. reflexivity.
+  - cbn [app split_on]. destruct (N.eqb x c); [rewrite IH; reflexivity|].
+    rewrite IH. pose proof (split_on_nonempty c a) as Hne. destruct (split_on c a) as [|h t]; [congruence|]. reflexivity.
+Qed.
+
+Lemma split_join_gen c ls : ls <> [] -> split_on c (join [c] ls) = flat_map (split_on c) ls.
+Proof.
+  induction ls as [|l ls IH]; intro Hne; [congruence|].
+  destruct ls as [|l2 ls']; [cbn [join flat_map]; rewrite app_nil_r; reflexivity|].
+  change (join [c] (l :: l2 :: ls')) with (l ++ [c] ++ join [c] (l2 :: ls')). cbn [app].
+  rewrite split_on_app_gen, IH by discriminate. reflexivity.
+Qed.
+
 Lemma ind_no_nl k : memb c_nl (ind k) = false.
 Proof. unfold ind. apply memb_repeat_ne. reflexivity. Qed.
 
@@ -553,111 +569,150 @@ Lemma emit_value_list it items indent :
 Proof. reflexivity. Qed.
 
 Lemma ml_lines_spec indent n ps : forall i,
-  Forall2 (fun p l => exists sfx, (sfx = [c_comma] \/ sfx = []) /\ l = ind (S indent) ++ p ++ sfx) ps (ml_lines indent n ps i).
+  Forall2 (fun p l => exists sfx, trail_ok sfx /\ l = ind (S indent) ++ p ++ sfx) ps (ml_lines indent n ps i).
 Proof.
   induction ps as [|p ps IH]; intro i; [constructor|]. cbn [ml_lines]. constructor; [|apply IH].
-  destruct (Nat.ltb (S i) n); eexists; (split; [|reflexivity]); [left|right]; reflexivity.
+  destruct (Nat.ltb (S i) n); eexists; (split; [|reflexivity]); [right; left|left]; reflexivity.
 Qed.
 
-Lemma item_line_ok p sfx : tok_ok p -> (sfx = [c_comma] \/ sfx = []) -> line_body_ok (p ++ sfx) /\ memb c_nl (p ++ sfx) = false.
+(* <value>[,| // comment] at the start of a line *)
+Lemma item_line_ok p t : tok_ok p -> trail_ok t -> line_body_ok (p ++ t) /\ memb c_nl (p ++ t) = false.
 Proof.
-  intros [Hn Htab Hnl Hlast Hhd Hscan] Hs.
-  assert (Hf : follow_ok sfx = true) by (destruct Hs as [->| ->]; reflexivity).
+  intros [Hn Htab Hnl Hlast Hhd Hscan] Ht.
+  destruct (trail_facts t Ht) as (T1 & T2 & T3 & T4 & T5).
   split; [repeat split|].
-  - rewrite memb_app, Htab. destruct Hs as [->| ->]; reflexivity.
-  - destruct Hs as [->| ->]; [rewrite last_is_blank_app by discriminate; reflexivity|rewrite app_nil_r; exact Hlast].
-  - destruct p as [|c b]; [congruence|]. exists c, (b ++ sfx). split; [reflexivity|exact Hhd].
-  - destruct (Hscan 0 sfx eq_refl Hf) as (p' & ->). destruct Hs as [->| ->]; [|reflexivity].
-    rewrite scan_plain by reflexivity. reflexivity.
-  - rewrite memb_app, Hnl. destruct Hs as [->| ->]; reflexivity.
-Qed.
-
-(* the item lines of a multi-line list: code lines one level deeper, newline-free *)
-Lemma ml_lines_steps indent n ps i : Forall tok_ok ps ->
-  steps (ml_lines indent n ps i) (S indent) /\ forallb (fun l => negb (memb c_nl l)) (ml_lines indent n ps i) = true.
-Proof.
-  intro H. pose proof (ml_lines_spec indent n ps i) as S2. revert H.
-  induction S2 as [|p l ps ls (sfx & Hs & ->) _ IH]; intro H; [split; [apply steps_nil|reflexivity]|].
-  inversion H as [|? ? Hp Hps]; subst. destruct (IH Hps) as [I1 I2]. destruct (item_line_ok p sfx Hp Hs) as [L1 L2].
-  split.
-  - change ((ind (S indent) ++ p ++ sfx) :: ls) with ([ind (S indent) ++ p ++ sfx] ++ ls). apply steps_app; [apply steps_line; exact L1|exact I1].
-  - cbn [forallb]. rewrite memb_app, ind_no_nl, L2, I2. reflexivity.
-Qed.
-
-(* the text of a value: one line, or the multi-line list layout *)
-Definition vtext_ok (k : nat) (X : str) : Prop :=
-  tok_ok X \/ exists parts n, Forall tok_ok parts /\ X = join [c_nl] (s_lb :: ml_lines k n parts 0 ++ [ind k ++ s_rb]).
-
-Definition list_safe (v : value) : bool := match v with VList items => forallb scalar_safe items | _ => false end.
-Definition value_safe (v : value) : bool := scalar_safe v || list_safe v.
-
-Lemma ml_parts_scalars indent items : forallb scalar_safe items = true ->
-  ml_parts indent items = map (fun it => emit_value it (S indent)) items /\
-  Forall tok_ok (map (fun it => emit_value it (S indent)) items).
-Proof.
-  induction items as [|it items IH]; intro H; [split; [reflexivity|constructor]|].
-  cbn [forallb] in H. apply andb_true_iff in H. destruct H as [H1 H2]. destruct (IH H2) as [E F].
-  split.
-  - unfold ml_parts in *. cbn [flat_map map]. rewrite E. destruct it; try discriminate H1; reflexivity.
-  - cbn [map]. constructor; [exact (tok_scalar_plain it (S indent) H1)|exact F].
-Qed.
-
-Lemma vtext_list items k : forallb scalar_safe items = true -> vtext_ok k (emit_value (VList items) k).
-Proof.
-  intro H. destruct items as [|it items].
-  - left. cbn [emit_value]. apply tok_inert; [discriminate|reflexivity].
-  - rewrite emit_value_list. destruct (needs_multiline (it :: items)).
-    + cbv zeta. destruct (ml_parts_scalars k (it :: items) H) as [E F]. rewrite E.
-      cbn [map]. right. eexists; eexists. split; [exact F|reflexivity].
-    + left. destruct (inline_parts_scalars k (it :: items) H) as [E F]. rewrite E. apply tok_inline_list. exact F.
-Qed.
-
-Lemma vtext_value key v k : value_safe v = true -> vtext_ok k (force_quote key v (emit_value v k)).
-Proof.
-  unfold value_safe. intro H. destruct (scalar_safe v) eqn:Hs.
-  - left. apply tok_scalar. exact Hs.
-  - cbn [orb] in H. destruct v; try discriminate H. cbn [force_quote]. apply vtext_list. exact H.
-Qed.
-Lemma vtext_value_plain v k : value_safe v = true -> vtext_ok k (emit_value v k).
-Proof.
-  unfold value_safe. intro H. destruct (scalar_safe v) eqn:Hs.
-  - left. apply tok_scalar_plain. exact Hs.
-  - cbn [orb] in H. destruct v; try discriminate H. apply vtext_list. exact H.
+  - rewrite memb_app, Htab, T1. reflexivity.
+  - destruct t as [|x t']; [rewrite app_nil_r; exact Hlast|]. rewrite last_is_blank_app by discriminate. apply T4. discriminate.
+  - destruct p as [|c b]; [congruence|]. exists c, (b ++ t). split; [reflexivity|exact Hhd].
+  - destruct (Hscan 0 t eq_refl T3) as (p' & ->). apply T5.
+  - rewrite memb_app, Hnl, T2. reflexivity.
 Qed.
 
 Lemma close_line_ok t : trail_ok t -> line_body_ok (s_rb ++ t) /\ memb c_nl (s_rb ++ t) = false.
-Proof.
-  intro Ht. destruct (trail_facts t Ht) as (T1 & T2 & T3 & T4 & T5 & T6).
-  split; [repeat split|].
-  - rewrite memb_app, T1. reflexivity.
-  - destruct t as [|x t']; [reflexivity|]. rewrite last_is_blank_app by discriminate. apply T4. discriminate.
-  - exists c_rbr, t. repeat split; reflexivity.
-  - unfold s_rb. cbn [app]. rewrite scan_plain by reflexivity. apply T5.
-  - rewrite memb_app, T2. reflexivity.
-Qed.
+Proof. intro Ht. apply item_line_ok; [apply tok_inert; [discriminate|reflexivity]|exact Ht]. Qed.
 
 Lemma key_no_nl key : key_safe key = true -> memb c_nl key = false.
 Proof. intro Hk. destruct (key_safe_facts key Hk) as (Hne & Hi). exact (proj1 (proj2 (inert_line_facts key 0 Hi Hne))). Qed.
 
+(* what may stand before a value on its line: nothing (list item) or KEY:: *)
+Definition pre_ok (a : str) : Prop := a = [] \/ exists key, key_safe key = true /\ a = key ++ s_assign.
+
+Lemma pre_line a T t : pre_ok a -> tok_ok T -> trail_ok t ->
+  line_body_ok (a ++ T ++ t) /\ memb c_nl (a ++ T ++ t) = false.
+Proof.
+  intros [->|(key & Hk & ->)] HT Ht.
+  - exact (item_line_ok T t HT Ht).
+  - split; [rewrite <- app_assoc; apply assign_body_ok; assumption|].
+    rewrite !memb_app, (key_no_nl key Hk), (tk_nl T HT), (proj1 (proj2 (trail_facts t Ht))). reflexivity.
+Qed.
+
+(* the text X of a value written at depth k: whatever stands before and after it on its (first / last) line,
+   the physical lines are accepted.  One line, or the multi-line list layout, nested to any depth. *)
+Definition vtext (k : nat) (X : str) : Prop :=
+  forall a t, pre_ok a -> trail_ok t -> steps (split_on c_nl (ind k ++ a ++ X ++ t)) k.
+
+Lemma vtext_tok k X : tok_ok X -> vtext k X.
+Proof.
+  intros HX a t Ha Ht. destruct (pre_line a X t Ha HX Ht) as [L1 L2].
+  rewrite split_on_no_sep by (rewrite memb_app, ind_no_nl, L2; reflexivity). apply steps_line. exact L1.
+Qed.
+
+Lemma tok_lb : tok_ok s_lb.
+Proof. apply tok_inert; [discriminate|reflexivity]. Qed.
+
+Lemma vtext_ml k n parts : Forall (vtext (S k)) parts ->
+  vtext k (join [c_nl] (s_lb :: ml_lines k n parts 0 ++ [ind k ++ s_rb])).
+Proof.
+  intros HF a t Ha Ht.
+  pose proof (join_wrap [c_nl] (ind k ++ a) s_lb (ml_lines k n parts 0) (ind k ++ s_rb) t) as E.
+  rewrite <- !app_assoc in E. refine (eq_ind_r (fun z => steps (split_on c_nl z) k) _ E). clear E.
+  rewrite split_join_gen by discriminate. cbn [flat_map]. rewrite flat_map_app. cbn [flat_map]. rewrite app_nil_r.
+  destruct (pre_line a s_lb [] Ha tok_lb (or_introl eq_refl)) as [A1 A2]. rewrite app_nil_r in A1, A2.
+  destruct (close_line_ok t Ht) as [C1 C2].
+  rewrite (split_on_no_sep c_nl (ind k ++ a ++ s_lb)) by (rewrite memb_app, ind_no_nl, A2; reflexivity).
+  rewrite (split_on_no_sep c_nl (ind k ++ s_rb ++ t)) by (rewrite memb_app, ind_no_nl, C2; reflexivity).
+  cbn [app]. apply steps_header; [exact A1|]. apply steps_app; [|apply steps_line_up; exact C1].
+  apply steps_concat.
+  pose proof (ml_lines_spec k n parts 0) as S2. revert HF.
+  induction S2 as [|p l ps ls (sfx & Hs & ->) _ IH]; intro HF; [constructor|].
+  inversion HF as [|? ? Hp Hps]; subst. constructor; [|exact (IH Hps)].
+  exact (Hp [] sfx (or_introl eq_refl) Hs).
+Qed.
+
+(* nested induction principle for values (through lists) *)
+Section ValueInd.
+Variable P : value -> Prop.
+Hypothesis HL : forall items, Forall P items -> P (VList items).
+Hypothesis HO : forall v, (match v with VList _ => False | _ => True end) -> P v.
+Fixpoint value_ind2 (v : value) : P v :=
+  match v with
+  | VList items =>
+      HL items ((fix go (l : list value) : Forall P l :=
+                   match l with [] => Forall_nil _ | x :: r => Forall_cons _ (value_ind2 x) (go r) end) items)
+  | VNull => HO VNull I
+  | VBool b => HO (VBool b) I
+  | VNum f c => HO (VNum f c) I
+  | VStr s => HO (VStr s) I
+  | VMap pairs => HO (VMap pairs) I
+  | VHolo raw => HO (VHolo raw) I
+  | VZone c t m => HO (VZone c t m) I
+  | VAbsent => HO VAbsent I
+  end.
+End ValueInd.
+
+(* values of the theorem: safe scalars and lists of such values, nested to any depth *)
+Fixpoint value_safe (v : value) : bool :=
+  match v with
+  | VList items => forallb value_safe items
+  | _ => scalar_safe v
+  end.
+
+Lemma ml_parts_plain k items : forallb value_safe items = true ->
+  ml_parts k items = map (fun it => emit_value it (S k)) items.
+Proof.
+  induction items as [|it items IH]; intro H; [reflexivity|].
+  cbn [forallb] in H. apply andb_true_iff in H. destruct H as [H1 H2].
+  unfold ml_parts in *. cbn [flat_map map]. rewrite (IH H2).
+  destruct it; cbn [value_safe scalar_safe] in H1; try discriminate H1; reflexivity.
+Qed.
+
+Lemma no_trigger_scalars items : existsb ml_trigger items = false -> forallb value_safe items = true ->
+  forallb scalar_safe items = true.
+Proof.
+  induction items as [|it items IH]; intros Ht H; [reflexivity|].
+  cbn [existsb] in Ht. apply orb_false_iff in Ht. destruct Ht as [Ht1 Ht2].
+  cbn [forallb] in H |- *. apply andb_true_iff in H. destruct H as [H1 H2]. rewrite (IH Ht2 H2), andb_true_r.
+  destruct it; try exact H1. discriminate Ht1.
+Qed.
+
+Lemma vtext_value_plain : forall v, value_safe v = true -> forall k, vtext k (emit_value v k).
+Proof.
+  apply (value_ind2 (fun v => value_safe v = true -> forall k, vtext k (emit_value v k))).
+  - intros items IH H k. cbn [value_safe] in H. destruct items as [|it items].
+    + apply vtext_tok. cbn [emit_value]. apply tok_inert; [discriminate|reflexivity].
+    + rewrite emit_value_list. destruct (needs_multiline (it :: items)) eqn:Hm.
+      * cbv zeta. rewrite (ml_parts_plain k _ H). cbn [map]. rewrite <- (map_cons (fun it0 => emit_value it0 (S k)) it items).
+        apply vtext_ml. rewrite Forall_forall in IH |- *. intros X HX. apply in_map_iff in HX. destruct HX as (v & <- & Hin).
+        rewrite forallb_forall in H. exact (IH v Hin (H v Hin) (S k)).
+      * unfold needs_multiline in Hm. apply orb_false_iff in Hm. destruct Hm as [Hm1 _].
+        apply vtext_tok. destruct (inline_parts_scalars k _ (no_trigger_scalars _ Hm1 H)) as [E F].
+        rewrite E. apply tok_inline_list. exact F.
+  - intros v Hv H k. destruct v; try (exfalso; exact Hv); apply vtext_tok; apply tok_scalar_plain; exact H.
+Qed.
+
+Lemma vtext_value key v k : value_safe v = true -> vtext k (force_quote key v (emit_value v k)).
+Proof.
+  intro H. destruct v; try exact (vtext_value_plain _ H k).
+  apply vtext_tok. apply tok_scalar. exact H.
+Qed.
+
 (* KEY::<value text>[ // comment] at depth k, in either layout *)
-Lemma assign_text_steps key k X t : key_safe key = true -> trail_ok t -> vtext_ok k X ->
+Lemma assign_text_steps key k X t : key_safe key = true -> trail_ok t -> vtext k X ->
   steps (phys [ind k ++ key ++ s_assign ++ X ++ t]) k.
 Proof.
-  intros Hk Ht [HX|(parts & n & HF & ->)].
-  - rewrite phys_one.
-    + apply steps_line. apply assign_body_ok; assumption.
-    + rewrite !memb_app, ind_no_nl, (key_no_nl key Hk), (tk_nl X HX), (proj1 (proj2 (trail_facts t Ht))). reflexivity.
-  - pose proof (join_wrap [c_nl] (ind k ++ key ++ s_assign) s_lb (ml_lines k n parts 0) (ind k ++ s_rb) t) as E.
-    rewrite <- !app_assoc in E. refine (eq_ind_r (fun z => steps (phys [z]) k) _ E). clear E.
-    destruct (ml_lines_steps k n parts 0 HF) as [M1 M2]. destruct (close_line_ok t Ht) as [C1 C2].
-    pose proof (assign_body_ok key s_lb [] Hk (tok_inert s_lb ltac:(discriminate) eq_refl) (or_introl eq_refl)) as A1.
-    rewrite app_nil_r in A1.
-    unfold phys. cbn [flat_map]. rewrite app_nil_r. rewrite split_join.
-    + apply steps_header; [exact A1|]. apply steps_app; [exact M1|apply steps_line_up; exact C1].
-    + discriminate.
-    + cbn [forallb]. apply andb_true_iff. split.
-      * rewrite !memb_app, ind_no_nl, (key_no_nl key Hk). reflexivity.
-      * rewrite forallb_app. apply andb_true_iff. split; [exact M2|]. cbn [forallb]. rewrite memb_app, ind_no_nl, C2. reflexivity.
+  intros Hk Ht HX. unfold phys. cbn [flat_map]. rewrite app_nil_r.
+  specialize (HX (key ++ s_assign) t (or_intror (ex_intro _ key (conj Hk eq_refl))) Ht).
+  rewrite <- app_assoc in HX. exact HX.
 Qed.
 
 (* ---- comment lines ---------------------------------------------------------------------------------------------- *)
@@ -827,8 +882,8 @@ Definition section_name (key : str) (annot : option str) : str :=
 Definition safe_child (safe : node -> bool) (c : node) : bool :=
   match c with NAssign [] (VZone zc zt zm) _ _ => zone_safe zc zt zm | _ => safe c end.
 
-(* the class of nodes of the theorem: every construct of the AST except nested lists / inline maps /
-   holographic values (see value_safe) *)
+(* the class of nodes of the theorem: every construct of the AST; values are scalars and lists nested to any
+   depth (value_safe) -- not covered: inline maps and holographic values *)
 Fixpoint safe_node (n : node) : bool :=
   match n with
   | NAssign key v lead tr =>
@@ -911,22 +966,6 @@ Proof.
 Qed.
 
 (* ---- 4. document frame ------------------------------------------------------------------------------------------------ *)
-Lemma split_on_app_gen c a : forall b, split_on c (a ++ c :: b) = split_on c a ++ split_on c b.
-Proof.
-  induction a as [|x a IH]; intro b.
-  - cbn [app split_on]. rewrite N.eqb_refl. reflexivity.
-  - cbn [app split_on]. destruct (N.eqb x c); [rewrite IH; reflexivity|].
-    rewrite IH. pose proof (split_on_nonempty c a) as Hne. destruct (split_on c a) as [|h t]; [congruence|]. reflexivity.
-Qed.
-
-Lemma split_join_gen c ls : ls <> [] -> split_on c (join [c] ls) = flat_map (split_on c) ls.
-Proof.
-  induction ls as [|l ls IH]; intro Hne; [congruence|].
-  destruct ls as [|l2 ls']; [cbn [join flat_map]; rewrite app_nil_r; reflexivity|].
-  change (join [c] (l :: l2 :: ls')) with (l ++ [c] ++ join [c] (l2 :: ls')). cbn [app].
-  rewrite split_on_app_gen, IH by discriminate. reflexivity.
-Qed.
-
 Lemma split_emit sp d : split_on c_nl (emit sp d) = phys (emit_lines sp d) ++ [[]].
 Proof.
   unfold emit. rewrite split_on_app_gen. cbn [split_on]. f_equal. apply split_join_gen.
@@ -1022,8 +1061,12 @@ Proof.
   destruct n; try exact (all_P_strict _ H 0%nat). apply steps_nil.
 Qed.
 
-Definition front_absent (sp : N -> bool) (d : doc) : bool :=
-  match dfront d with Some f => forallb sp f | None => true end.
+(* frontmatter: absent, blank (dropped by the emitter), or without a line "---" of its own *)
+Definition front_safe (sp : N -> bool) (d : doc) : bool :=
+  match dfront d with
+  | Some f => forallb sp f || forallb (fun l => negb (str_eqb l (lit "---"))) (split_on c_nl f)
+  | None => true
+  end.
 Definition grammar_safe (g : option str) : bool :=
   match truthy g with Some x => negb (memb c_nl x) | None => true end.
 
@@ -1032,18 +1075,52 @@ Definition strict_safe_gen (d : doc) : bool :=
   name_safe (dname d) && grammar_safe (dgrammar d) && meta_safe (dmeta d) &&
   forallb safe_node (dsections d) && forallb comment_safe (dtrailing d).
 
-Lemma emit_lines_eq sp d : front_absent sp d = true ->
+Definition front_part (sp : N -> bool) (d : doc) : list str :=
+  match dfront d with
+  | Some f => if forallb sp f then [] else [s_sep; f; s_sep; []]
+  | None => []
+  end.
+
+Lemma emit_lines_eq sp d :
   emit_lines sp d =
+  front_part sp d ++
   (match truthy (dgrammar d) with Some g => [s_octave ++ g] | None => [] end) ++
   [s_env ++ dname d ++ s_env] ++
   (meta_part (dmeta d) ++ (if dsep d then [s_sep] else []) ++ top_lines (dsections d) ++ emit_leading (dtrailing d) 0) ++
   [s_end].
+Proof. unfold front_part, emit_lines, meta_part, top_lines. rewrite <- !app_assoc. reflexivity. Qed.
+
+(* the recogniser, with its two frame steps named *)
+Definition front_sel (ls : list str) : option (list str) :=
+  match ls with
+  | l0 :: r => if str_eqb l0 (lit "---") then skip_front r else Some ls
+  | [] => Some ls
+  end.
+Definition tail_ok (ls2 : list str) : bool :=
+  let ls3 := match ls2 with l :: r => if prefixb (lit "OCTAVE::") l then r else ls2 | [] => ls2 end in
+  match ls3 with
+  | env :: body => env_name_ok env && negb (str_eqb env (lit "===END===")) && body_ok body None 0
+  | [] => false
+  end.
+Lemma strict_profile_eq text :
+  strict_profile text =
+  match rev (split_on c_nl text) with
+  | [] :: endl :: revbody =>
+      str_eqb endl (lit "===END===") &&
+      match front_sel (rev revbody) with None => false | Some ls2 => tail_ok ls2 end
+  | _ => false
+  end.
+Proof. reflexivity. Qed.
+
+Lemma skip_front_app F rest : forallb (fun l => negb (str_eqb l (lit "---"))) F = true ->
+  skip_front (F ++ s_sep :: [] :: rest) = Some rest.
 Proof.
-  unfold front_absent, emit_lines, meta_part, top_lines. intro H.
-  destruct (dfront d) as [f|]; [rewrite H|]; cbn [app]; rewrite <- !app_assoc; reflexivity.
+  induction F as [|l F IH]; intro H; [reflexivity|].
+  cbn [forallb] in H. apply andb_true_iff in H. destruct H as [H1 H2]. apply negb_true_iff in H1.
+  cbn [app skip_front]. rewrite H1. exact (IH H2).
 Qed.
 
-Theorem strict_emit_gen sp d : front_absent sp d = true -> strict_safe_gen d = true ->
+Theorem strict_emit_gen sp d : front_safe sp d = true -> strict_safe_gen d = true ->
   strict_profile (emit sp d) = true.
 Proof.
   intros Hf H. unfold strict_safe_gen in H.
@@ -1058,20 +1135,37 @@ Proof.
       destruct (dsep d); [|apply steps_nil]. rewrite phys_one by reflexivity. apply steps_plain0.
       repeat split; try reflexivity. exists c_dash, [c_dash; c_dash]. repeat split; reflexivity. }
     destruct (Hs 0%nat [] ltac:(lia)) as (p' & _ & E). rewrite app_nil_r in E. rewrite E. destruct p'; reflexivity. }
-  unfold strict_profile. rewrite split_emit, (emit_lines_eq sp d Hf). fold body.
-  assert (E1 : str_eqb (s_env ++ dname d ++ s_env) (lit "---") = false) by reflexivity.
-  assert (E2 : prefixb (lit "OCTAVE::") (s_env ++ dname d ++ s_env) = false) by reflexivity.
+  (* the lines from the sentinel / envelope on *)
+  set (G := match truthy (dgrammar d) with Some g => [s_octave ++ g] | None => [] end).
+  assert (Htail : tail_ok (phys G ++ (s_env ++ dname d ++ s_env) :: phys body) = true /\
+                  match phys G ++ (s_env ++ dname d ++ s_env) :: phys body with
+                  | l0 :: _ => str_eqb l0 (lit "---") = false | [] => True end).
+  { subst G. unfold grammar_safe in Hg. destruct (truthy (dgrammar d)) as [g|].
+    - apply negb_true_iff in Hg. rewrite phys_one by (rewrite memb_app, Hg; reflexivity). cbn [app]. split; [|reflexivity].
+      unfold tail_ok. change (prefixb (lit "OCTAVE::") (s_octave ++ g)) with true. cbv iota zeta.
+      rewrite N1, N2, Hbody. reflexivity.
+    - cbn [phys flat_map app]. split; [|reflexivity]. unfold tail_ok.
+      assert (E2 : prefixb (lit "OCTAVE::") (s_env ++ dname d ++ s_env) = false) by reflexivity.
+      rewrite E2. cbv zeta. rewrite N1, N2, Hbody. reflexivity. }
+  destruct Htail as [Htail Hhd].
+  rewrite strict_profile_eq, split_emit, emit_lines_eq. fold body. fold G.
   remember (s_env ++ dname d ++ s_env) as env eqn:Eenv. clear Eenv.
-  rewrite !phys_app. change (phys [s_end]) with [s_end].
-  rewrite (phys_one env) by exact N3.
+  rewrite !phys_app. change (phys [s_end]) with [s_end]. rewrite (phys_one env) by exact N3.
+  remember (phys G) as PG eqn:EPG. clear EPG. remember (phys body) as PB eqn:EPB. clear EPB.
+  remember (phys (front_part sp d)) as PF eqn:EPF.
   rewrite !app_assoc, rev_app_distr. cbn [rev app]. rewrite rev_app_distr. cbn [rev app].
-  change (str_eqb s_end (lit "===END===")) with true. cbn [andb]. rewrite rev_involutive.
-  unfold grammar_safe in Hg. destruct (truthy (dgrammar d)) as [g|].
-  - apply negb_true_iff in Hg. rewrite phys_one by (rewrite memb_app, Hg; reflexivity). cbn [app].
-    change (str_eqb (s_octave ++ g) (lit "---")) with false. cbv iota.
-    change (prefixb (lit "OCTAVE::") (s_octave ++ g)) with true. cbv iota.
-    rewrite N1, N2, Hbody. reflexivity.
-  - cbn [phys flat_map app]. rewrite E1, E2, N1, N2, Hbody. reflexivity.
+  change (str_eqb s_end (lit "===END===")) with true. cbn [andb]. rewrite rev_involutive, <- !app_assoc. cbn [app].
+  assert (Hsel : front_sel (PF ++ PG ++ env :: PB) = Some (PG ++ env :: PB)).
+  { subst PF. unfold front_part, front_safe in *. destruct (dfront d) as [f|].
+    - destruct (forallb sp f).
+      + cbn [phys flat_map app]. unfold front_sel. destruct (PG ++ env :: PB) as [|l0 r]; [reflexivity|]. rewrite Hhd. reflexivity.
+      + cbn [orb] in Hf. unfold phys. cbn [flat_map]. change (split_on c_nl s_sep) with [s_sep]. change (split_on c_nl []) with [[]: str].
+        cbn [app]. unfold front_sel. change (str_eqb s_sep (lit "---")) with true. cbv iota.
+        rewrite <- app_assoc. cbn [app]. apply skip_front_app. exact Hf.
+    - cbn [phys flat_map app]. unfold front_sel. destruct (PG ++ env :: PB) as [|l0 r]; [reflexivity|]. rewrite Hhd. reflexivity. }
+  assert (Hfin : forall o, o = Some (PG ++ env :: PB) ->
+                           match o with Some ls2 => tail_ok ls2 | None => false end = true) by (intros o ->; exact Htail).
+  exact (Hfin _ Hsel).
 Qed.
 
 (* ---- 5. the class contains the natural one: identifier keys, digit numbers, any quoted string ------------------------ *)
@@ -1154,13 +1248,17 @@ Qed.
 (* the decidable class: name an identifier word other than END; sentinel without newline; keys / block heads /
    section heads inert non-empty tokens (contains every identifier word but "vs": ident_key_safe); numbers inert
    tokens (contains all digit strings: digits_num_safe); strings ANY quoted string or inert bare string; lists of
-   such scalars in both layouts; comments non-empty, TAB-free, not ending in a blank; zones with a backtick fence,
+   such values, nested to any depth, in both layouts; comments non-empty, TAB-free, not ending in a blank; zones with a backtick fence,
    tidy tag and no content line that is the closing fence; META fields/one nested level of such values *)
 Definition strict_safe_doc (d : doc) : bool := strict_safe_gen d.
 
 (* no frontmatter: every safe document, all constructs, all depths *)
 Theorem strict_emit_wide : forall sp d, dfront d = None -> strict_safe_doc d = true -> strict_profile (emit sp d) = true.
-Proof. intros sp d Hf H. apply strict_emit_gen; [unfold front_absent; rewrite Hf; reflexivity|exact H]. Qed.
+Proof. intros sp d Hf H. apply strict_emit_gen; [unfold front_safe; rewrite Hf; reflexivity|exact H]. Qed.
+
+(* with frontmatter *)
+Theorem strict_emit_all : forall sp d, front_safe sp d = true -> strict_safe_doc d = true -> strict_profile (emit sp d) = true.
+Proof. exact strict_emit_gen. Qed.
 
 Lemma core_doc_front d : core_doc d = true -> dfront d = None.
 Proof. unfold core_doc. destruct (dfront d); [discriminate|reflexivity]. Qed.
@@ -1177,11 +1275,11 @@ Theorem strict_emit_trailing_comment : forall key v tr k,
   key_safe key = true -> value_safe v = true -> trailing_safe tr = true ->
   steps (phys [ind k ++ key ++ s_assign ++ force_quote key v (emit_value v k) ++ emit_trailing tr]) k.
 Proof. intros key v tr k H1 H2 H3. apply assign_text_steps; [exact H1|apply emit_trailing_ok; exact H3|apply vtext_value; exact H2]. Qed.
-(* (b) lists of scalars, inline or multi-line *)
+(* (b) lists (of scalars and of lists, to any depth), inline or multi-line *)
 Theorem strict_emit_lists : forall key items tr k,
-  key_safe key = true -> forallb scalar_safe items = true -> trailing_safe tr = true ->
+  key_safe key = true -> value_safe (VList items) = true -> trailing_safe tr = true ->
   steps (phys [ind k ++ key ++ s_assign ++ emit_value (VList items) k ++ emit_trailing tr]) k.
-Proof. intros key items tr k H1 H2 H3. apply assign_text_steps; [exact H1|apply emit_trailing_ok; exact H3|apply vtext_list; exact H2]. Qed.
+Proof. intros key items tr k H1 H2 H3. apply assign_text_steps; [exact H1|apply emit_trailing_ok; exact H3|apply vtext_value_plain; exact H2]. Qed.
 (* (c) META *)
 Theorem strict_emit_meta : forall m, meta_safe m = true -> steps (phys (meta_part m)) 0.
 Proof. exact meta_part_steps. Qed.
@@ -1257,6 +1355,18 @@ Example strict_emit_empty_block :
   strict_profile (emit sp_ascii (doc1 DOC (NBlock (lit "B") None [] []))) = true.
 Proof. split; vm_compute; reflexivity. Qed.
 
+(* frontmatter: any text *)
+Definition strict_emit_front_full : Prop :=
+  forall sp f, strict_profile (emit sp (mkDoc DOC None (Some f) false [] [] [])) = true.
+(* a frontmatter that contains its own closing line (never produced by the reader) *)
+Lemma strict_emit_front_refuted :
+  exists f, strict_profile (emit sp_ascii (mkDoc DOC None (Some f) false [] [] [])) = false.
+Proof. exists (lit "a" ++ [c_nl] ++ lit "---" ++ [c_nl] ++ lit "b"). vm_compute. reflexivity. Qed.
+Example strict_emit_front_example :
+  let d := mkDoc DOC (Some (lit "1.0")) (Some (lit "title: x -> y" ++ [c_nl; c_tab] ++ lit "k: v  ")) true [] [NAssign K VNull [] None] [] in
+  front_safe sp_ascii d = true /\ strict_safe_gen d = true /\ strict_profile (emit sp_ascii d) = true.
+Proof. repeat split; vm_compute; reflexivity. Qed.
+
 Lemma strict_emit_full_refuted : ~ strict_emit_full.
 Proof. intro H. specialize (H sp_ascii (doc1 DOC (NAssign K VNull [[]] None))). vm_compute in H. discriminate H. Qed.
 
@@ -1299,9 +1409,73 @@ Definition ex_wide : doc :=
               NAssign (lit "Z") (VZone (lit "zone body") None [c_bt; c_bt; c_bt]) [lit "before zone"] None;
               NBlock (lit "EMPTY") None [] [] ] [lit "block comment"] ] [lit "section comment"];
       NAssign (lit "SKIP") VAbsent [] None;
-      NAssign (lit "INLINE") (VList [VStr (lit "p"); VStr (lit "q")]) [] None ]
+      NAssign (lit "INLINE") (VList [VStr (lit "p"); VStr (lit "q")]) [] None;
+      NBlock (lit "DEEP") None
+        [ NAssign (lit "NESTED") (VList [VStr (lit "a"); VList [VStr (lit "b -> c"); VList [VNum false (lit "1"); VList []]; VNull]; VStr (lit "d")])
+            [] (Some (lit "after nested list")) ] [] ]
     [lit "document trailing comment"].
 
 Example ex_wide_ok :
   dfront ex_wide = None /\ strict_safe_doc ex_wide = true /\ strict_profile (emit sp_ascii ex_wide) = true.
 Proof. repeat split; vm_compute; reflexivity. Qed.
+
+(* ---- 9. the same theorem under a syntactic, recogniser-independent side condition ------------------------------------------ *)
+(* keys: identifier words other than "vs"; numbers: digit strings; strings: anything the emitter quotes, or plain words *)
+Definition key_nat (k : str) : bool := ident_word k && negb (str_eqb k (lit "vs")).
+Definition scalar_nat (v : value) : bool :=
+  match v with
+  | VNull | VBool _ => true
+  | VNum _ c => digits c
+  | VStr s => needs_quotes s || forallb word_chr s
+  | _ => false
+  end.
+Fixpoint nat_node (n : node) : bool :=
+  match n with
+  | NAssign k v [] None => key_nat k && scalar_nat v
+  | NBlock k None ch [] => key_nat k && forallb nat_node ch
+  | _ => false
+  end.
+Definition nat_doc (d : doc) : bool :=
+  ident_word (dname d) && negb (str_eqb (dname d) (lit "END")) && grammar_safe (dgrammar d) && forallb nat_node (dsections d).
+
+Lemma key_nat_safe k : key_nat k = true -> key_safe k = true.
+Proof. unfold key_nat. intro H. apply andb_true_iff in H. destruct H as [H1 H2]. apply negb_true_iff in H2. apply ident_key_safe; assumption. Qed.
+
+Lemma scalar_nat_safe v : scalar_nat v = true -> scalar_safe v = true.
+Proof.
+  destruct v as [|b|f c|s| | | | |]; cbn [scalar_nat]; intro H; try discriminate H; try reflexivity.
+  - apply digits_num_safe. exact H.
+  - destruct (needs_quotes s) eqn:Hq; [apply quoted_str_safe; exact Hq|]. cbn [orb] in H. apply word_str_safe. exact H.
+Qed.
+
+Lemma nat_node_safe : forall n, nat_node n = true -> safe_node n = true.
+Proof.
+  apply (node_ind2 (fun n => nat_node n = true -> safe_node n = true)).
+  - intros k v l t H. cbn [nat_node] in H. destruct l; [|discriminate H]. destruct t; [discriminate H|].
+    apply andb_true_iff in H. destruct H as [Hk Hv]. pose proof (scalar_nat_safe v Hv) as Hs.
+    pose proof (key_nat_safe k Hk) as Hk'.
+    destruct v; try discriminate Hv; cbn [safe_node forallb andb is_absent orb value_safe]; rewrite Hk', Hs; reflexivity.
+  - intros k t ch l IH H. cbn [nat_node] in H. destruct t; [discriminate H|]. destruct l; [|discriminate H].
+    apply andb_true_iff in H. destruct H as [Hk Hch].
+    cbn [safe_node forallb andb]. unfold block_head. cbn [truthy]. rewrite app_nil_r, (key_nat_safe k Hk). cbn [andb].
+    rewrite forallb_forall in Hch |- *. rewrite Forall_forall in IH. intros c Hin. specialize (IH c Hin (Hch c Hin)). specialize (Hch c Hin).
+    destruct c as [ck cv cl ct| | |]; try exact IH. destruct ck as [|c0 ck']; [|exact IH].
+    exfalso. cbn [nat_node] in Hch. destruct cl; [|discriminate Hch]. destruct ct; discriminate Hch.
+  - intros i k a ch l _ H. discriminate H.
+  - intros t H. discriminate H.
+Qed.
+
+Theorem strict_emit_core_nat : forall sp d, core_doc d = true -> nat_doc d = true -> strict_profile (emit sp d) = true.
+Proof.
+  intros sp d Hc H. apply strict_emit_core; [exact Hc|].
+  unfold core_doc in Hc. destruct (dfront d); [discriminate|]. destruct (dmeta d) eqn:Em; [|discriminate]. destruct (dtrailing d) eqn:Et; [|discriminate].
+  unfold nat_doc in H. apply andb_true_iff in H. destruct H as [H Hs]. apply andb_true_iff in H. destruct H as [H Hg].
+  unfold strict_safe_doc, strict_safe_gen. rewrite Em, Et, Hg. unfold name_safe. fold (ident_word (dname d)). rewrite H. cbn [andb meta_safe forallb].
+  rewrite andb_true_r. rewrite forallb_forall in Hs |- *. intros n Hin. apply nat_node_safe. exact (Hs n Hin).
+Qed.
+
+Example ex_core_nat : nat_doc ex_core = false /\ nat_doc (mkDoc (dname ex_core) (dgrammar ex_core) None true []
+  [NBlock (lit "A") None [NBlock (lit "B") None [NBlock (lit "C") None
+     [NAssign (lit "S") (VStr (lit "x -> y :: z")) [] None; NAssign (lit "N") (VNum false (lit "12")) [] None;
+      NAssign (lit "T") (VBool true) [] None; NAssign (lit "U") VNull [] None; NAssign (lit "W") (VStr (lit "word")) [] None] []] []] []] []) = true.
+Proof. split; vm_compute; reflexivity. Qed.
